@@ -6,6 +6,7 @@ package main
 
 import (
 	"fmt"
+	"go/constant"
 	"go/token"
 	"go/types"
 	"os"
@@ -127,6 +128,10 @@ func calleeName(c *ssa.CallCommon) string {
 
 func (V *Verifier) runScans(prop string) []*Oblig {
 	switch prop {
+	case "C01":
+		return V.scanEscrowDerivation("C01")
+	case "C19":
+		return V.scanEscrowDerivation("C19")
 	case "C02":
 		return V.scanNoMintBurn()
 	case "C10":
@@ -271,6 +276,74 @@ func (V *Verifier) scanSwitch() []*Oblig {
 			}
 		}
 	}
+	// the store in keeper.init: the value is the unmodified boolean result of strconv.ParseBool applied to the link-time
+	// string, and the error result of that call ends in a panic (so the switch is true iff the string parses to true)
+	parsedOK, why := false, "no store to EnableAddAllowedBidder found in keeper.init"
+	for _, fn := range sc.fns {
+		if !(strings.HasPrefix(fn.Name(), "init") && fn.Parent() == nil && fn.Signature.Recv() == nil && fnPkgPath(fn) == modKeeper) {
+			continue
+		}
+		for _, b := range fn.Blocks {
+			for _, in := range b.Instrs {
+				st, ok := in.(*ssa.Store)
+				if !ok {
+					continue
+				}
+				g, isG := st.Addr.(*ssa.Global)
+				if !isG || g.Name() != "EnableAddAllowedBidder" {
+					continue
+				}
+				parsedOK, why = false, "the stored value is not the first result of strconv.ParseBool: "+st.Val.String()
+				ex, isEx := st.Val.(*ssa.Extract)
+				if !isEx || ex.Index != 0 {
+					continue
+				}
+				call, isCall := ex.Tuple.(*ssa.Call)
+				if !isCall || call.Common().StaticCallee() == nil || call.Common().StaticCallee().String() != "strconv.ParseBool" {
+					continue
+				}
+				ld, isLoad := call.Common().Args[0].(*ssa.UnOp)
+				if !isLoad || ld.Op != token.MUL {
+					why = "strconv.ParseBool is not applied to the link-time string"
+					continue
+				}
+				if lg, isLG := ld.X.(*ssa.Global); !isLG || lg.Name() != "enableAddAllowedBidder" {
+					why = "strconv.ParseBool is not applied to keeper.enableAddAllowedBidder"
+					continue
+				}
+				// the error result must be compared with nil and the non-nil branch must panic
+				errChecked := false
+				if refs := call.Referrers(); refs != nil {
+					for _, r := range *refs {
+						e1, ok := r.(*ssa.Extract)
+						if !ok || e1.Index != 1 || e1.Referrers() == nil {
+							continue
+						}
+						for _, u := range *e1.Referrers() {
+							if bo, ok := u.(*ssa.BinOp); ok && bo.Op == token.NEQ && bo.Referrers() != nil {
+								for _, br := range *bo.Referrers() {
+									if ifi, ok := br.(*ssa.If); ok {
+										for _, pin := range ifi.Block().Succs[0].Instrs {
+											if _, isPanic := pin.(*ssa.Panic); isPanic {
+												errChecked = true
+											}
+										}
+									}
+								}
+							}
+						}
+					}
+				}
+				if !errChecked {
+					why = "the error of strconv.ParseBool does not end in a panic"
+					continue
+				}
+				parsedOK, why = true, "EnableAddAllowedBidder = strconv.ParseBool(enableAddAllowedBidder), error => panic"
+			}
+		}
+	}
+	out = append(out, scanOblig("C10", "frame.switch-is-exactly-the-parsed-link-time-string", parsedOK,
+		"keeper.init assigns to the switch exactly the boolean that strconv.ParseBool makes of the link-time string (no other value can enable MsgAddAllowedBidder)", why))
 	out = append(out, scanOblig("C10", "frame.switch-link-time-default-is-false", def == "false",
 		"the package initialiser sets keeper.enableAddAllowedBidder to the literal \"false\" (the value strconv.ParseBool turns into the switch)", "initialiser value: "+fmt.Sprintf("%q", def)))
 	// Makefile
@@ -333,8 +406,32 @@ func (V *Verifier) scanDeterminism() []*Oblig {
 						if !sc.launderedBySort(in) {
 							bad = append(bad, sc.pos(in)+" enumerates a map in unspecified order ("+nm+") without sorting the result")
 						}
+					case nm == "time.Unix" || nm == "time.UnixMilli" || nm == "time.UnixMicro" || nm == "time.Date" || nm == "time.LoadLocation" || nm == "time.ParseInLocation" ||
+						nm == "(time.Time).Local" || nm == "(time.Time).In" || nm == "(time.Time).Zone" || nm == "(time.Time).ZoneBounds" || nm == "(time.Time).IsDST":
+						// a time in (or a question about) the zone of the process: calendar arithmetic (AddDate) and formatting of such a
+						// value depend on the TZ of the node.  Harmless only when the value is at once normalised with UTC().
+						normalised := false
+						if v, ok := in.(ssa.Value); ok && v.Referrers() != nil && len(*v.Referrers()) > 0 && (nm == "time.Unix" || nm == "time.UnixMilli" || nm == "time.UnixMicro") {
+							normalised = true
+							for _, r := range *v.Referrers() {
+								c, isCall := r.(ssa.CallInstruction)
+								if _, isDbg := r.(*ssa.DebugRef); isDbg {
+									continue
+								}
+								if !isCall || calleeName(c.Common()) != "(time.Time).UTC" {
+									normalised = false
+								}
+							}
+						}
+						if !normalised {
+							bad = append(bad, sc.pos(in)+" builds or inspects a time in the time zone of the process ("+nm+")")
+						}
 					case nm == "os.Getenv" || nm == "os.Hostname" || nm == "os.Getpid" || nm == "runtime.NumCPU" || nm == "runtime.NumGoroutine":
 						bad = append(bad, sc.pos(in)+" depends on the process ("+nm+")")
+					}
+				case *ssa.UnOp:
+					if g, ok := i.X.(*ssa.Global); ok && i.Op == token.MUL && g.Pkg != nil && g.Pkg.Pkg.Path() == "time" && g.Name() == "Local" {
+						bad = append(bad, sc.pos(in)+" reads time.Local (the time zone of the process)")
 					}
 				case *ssa.Convert:
 					if types.Identical(i.X.Type().Underlying(), types.Typ[types.UnsafePointer]) {
@@ -347,7 +444,7 @@ func (V *Verifier) scanDeterminism() []*Oblig {
 		}
 	}
 	out = append(out, scanOblig("C14", "frame.no-clock-randomness-goroutines-or-process-dependence", len(bad) == 0,
-		"production code of the module reads no wall clock (except the telemetry measurement), uses no randomness, goroutines, select, pointer-to-integer conversion or process properties",
+		"production code of the module reads no wall clock (except the telemetry measurement), uses no randomness, goroutines, select, pointer-to-integer conversion, process properties or process-local time zone (time.Unix/Date/Local/In/LoadLocation without UTC normalisation)",
 		fmt.Sprintf("%d functions scanned; offending: %v", n, bad)))
 	// every range over a Go map must be order independent
 	var mbad []string
@@ -711,4 +808,166 @@ func (sc *scanCtx) sliceSortedAfterLoop(v ssa.Value, blocks map[*ssa.BasicBlock]
 	}
 	// every other load outside the loop must be dominated by the sorting call's block or be the return of the named result
 	return true
+}
+
+// C01/C19: the three escrow addresses of an auction are address.Module("fundraising", <role tag> + decimal(auction id)) with
+// pairwise different, digit-free role tags.  This turns assumption A4 (injective in role and auction id) into: the SDK's
+// address.Module hash is injective on names; what the module itself contributes to A4 is checked here.
+func (V *Verifier) scanEscrowDerivation(prop string) []*Oblig {
+	sc := V.moduleScan()
+	byName := map[string]*ssa.Function{}
+	for _, fn := range sc.fns {
+		if fnPkgPath(fn) == modTypes && fn.Parent() == nil && fn.Signature.Recv() == nil {
+			byName[fn.Name()] = fn
+		}
+	}
+	tags := map[string]string{}
+	var bad []string
+	kind := ""
+	for _, role := range []string{"SellingReserveAddress", "PayingReserveAddress", "VestingReserveAddress"} {
+		fn := byName[role]
+		if fn == nil {
+			bad = append(bad, "types."+role+" not found")
+			continue
+		}
+		if len(fn.Blocks) != 1 || len(fn.Params) != 1 {
+			bad = append(bad, "types."+role+" is not straight-line code over the auction id")
+			continue
+		}
+		ok := false
+		why := "does not return DeriveAddress(type, ModuleName, tag + fmt.Sprint(auctionId))"
+		for _, in := range fn.Blocks[0].Instrs {
+			ret, isRet := in.(*ssa.Return)
+			if !isRet || len(ret.Results) != 1 {
+				continue
+			}
+			call, isCall := ret.Results[0].(*ssa.Call)
+			if !isCall || call.Common().StaticCallee() == nil || call.Common().StaticCallee() != byName["DeriveAddress"] || len(call.Common().Args) != 3 {
+				continue
+			}
+			a := call.Common().Args
+			k, isK := a[0].(*ssa.Const)
+			m, isM := a[1].(*ssa.Const)
+			cat, isCat := a[2].(*ssa.BinOp)
+			if !isK || !isM || !isCat || cat.Op != token.ADD || m.Value == nil || constant.StringVal(m.Value) != "fundraising" {
+				why = "the derivation is not keyed by the module name and a tag"
+				continue
+			}
+			tag, isTag := cat.X.(*ssa.Const)
+			sp, isSp := cat.Y.(*ssa.Call)
+			if !isTag || !isSp || sp.Common().StaticCallee() == nil || sp.Common().StaticCallee().String() != "fmt.Sprint" {
+				why = "the name is not <constant tag> + fmt.Sprint(...)"
+				continue
+			}
+			// the single Sprint operand is the auction id parameter
+			idOK := false
+			if sl, isSl := sp.Common().Args[0].(*ssa.Slice); isSl {
+				if al, isAl := sl.X.(*ssa.Alloc); isAl && al.Referrers() != nil {
+					if at, isArr := al.Type().(*types.Pointer).Elem().(*types.Array); isArr && at.Len() == 1 {
+						for _, r := range *al.Referrers() {
+							if ia, isIA := r.(*ssa.IndexAddr); isIA && ia.Referrers() != nil {
+								for _, r2 := range *ia.Referrers() {
+									if st, isSt := r2.(*ssa.Store); isSt {
+										if mi, isMI := st.Val.(*ssa.MakeInterface); isMI && mi.X == fn.Params[0] {
+											idOK = true
+										}
+									}
+								}
+							}
+						}
+					}
+				}
+			}
+			if !idOK {
+				why = "fmt.Sprint is not applied to exactly the auction id"
+				continue
+			}
+			t := constant.StringVal(tag.Value)
+			if t == "" || strings.ContainsAny(t, "0123456789") {
+				why = "the role tag is empty or contains a digit (tag+id would not determine the id)"
+				continue
+			}
+			kk := k.Value.ExactString()
+			if kind != "" && kind != kk {
+				why = "the roles use different address types"
+				continue
+			}
+			kind = kk
+			tags[role] = t
+			ok = true
+		}
+		if !ok {
+			bad = append(bad, "types."+role+": "+why)
+		}
+	}
+	seen := map[string]string{}
+	for role, t := range tags {
+		if other, dup := seen[t]; dup {
+			bad = append(bad, fmt.Sprintf("types.%s and types.%s use the same tag %q", role, other, t))
+		}
+		seen[t] = role
+	}
+	// DeriveAddress: under the address type the roles use, the result is address.Module(moduleName, []byte(name))
+	if fn := byName["DeriveAddress"]; fn == nil || len(fn.Params) != 3 {
+		bad = append(bad, "types.DeriveAddress not found")
+	} else if len(bad) == 0 {
+		found := false
+		for _, b := range fn.Blocks {
+			for _, in := range b.Instrs {
+				call, isCall := in.(*ssa.Call)
+				if !isCall || call.Common().StaticCallee() == nil || call.Common().StaticCallee().String() != "github.com/cosmos/cosmos-sdk/types/address.Module" {
+					continue
+				}
+				// arguments: the moduleName parameter and a one-element key list holding []byte(name)
+				if call.Common().Args[0] != fn.Params[1] {
+					continue
+				}
+				nameOK := false
+				if sl, isSl := call.Common().Args[1].(*ssa.Slice); isSl {
+					if al, isAl := sl.X.(*ssa.Alloc); isAl && al.Referrers() != nil {
+						if at, isArr := al.Type().(*types.Pointer).Elem().(*types.Array); isArr && at.Len() == 1 {
+							for _, r := range *al.Referrers() {
+								if ia, isIA := r.(*ssa.IndexAddr); isIA && ia.Referrers() != nil {
+									for _, r2 := range *ia.Referrers() {
+										if st, isSt := r2.(*ssa.Store); isSt {
+											if cv, isCv := st.Val.(*ssa.Convert); isCv && cv.X == fn.Params[2] {
+												nameOK = true
+											}
+										}
+									}
+								}
+							}
+						}
+					}
+				}
+				// the block is entered exactly when addressType == the type the roles pass, and returns the hash unchanged
+				guardOK := false
+				if len(b.Preds) == 1 {
+					if ifi, isIf := b.Preds[0].Instrs[len(b.Preds[0].Instrs)-1].(*ssa.If); isIf && b.Preds[0].Succs[0] == b {
+						if eq, isEq := ifi.Cond.(*ssa.BinOp); isEq && eq.Op == token.EQL && eq.X == fn.Params[0] {
+							if c, isC := eq.Y.(*ssa.Const); isC && c.Value.ExactString() == kind {
+								guardOK = true
+							}
+						}
+					}
+				}
+				retOK := false
+				if ret, isRet := b.Instrs[len(b.Instrs)-1].(*ssa.Return); isRet && len(ret.Results) == 1 {
+					if ct, isCT := ret.Results[0].(*ssa.ChangeType); isCT && ct.X == call {
+						retOK = true
+					}
+				}
+				if nameOK && guardOK && retOK {
+					found = true
+				}
+			}
+		}
+		if !found {
+			bad = append(bad, "types.DeriveAddress does not return address.Module(moduleName, []byte(name)) for the address type of the escrow accounts")
+		}
+	}
+	sort.Strings(bad)
+	return []*Oblig{scanOblig(prop, "frame.escrow-addresses-derive-from-role-and-auction-id", len(bad) == 0,
+		"the selling, paying and vesting escrow address of an auction are address.Module(ModuleName, tag + decimal(auction id)) with three different digit-free tags, so distinct (role, auction) pairs get distinct hash inputs (A4 is left with: the SDK hash is injective)",
+		fmt.Sprintf("tags %v; address type %s; offending: %v", tags, kind, bad))}
 }
